@@ -454,8 +454,8 @@ func (e *Exec) pickLocked(from *Thread, what string) *Thread {
 		if len(en) == 0 {
 			// advance virtual time to the next timer / sleeper
 			if !e.advanceLocked() {
-				// deadlock
-				if e.Deadlock == "" {
+				// deadlock (unless we merely ran past the horizon)
+				if e.Deadlock == "" && !e.CapHit {
 					var sb strings.Builder
 					for _, t := range e.threads {
 						if !t.done && t.pending != nil {
@@ -522,7 +522,7 @@ func (e *Exec) pickLocked(from *Thread, what string) *Thread {
 			e.Trace = append(e.Trace, Point{Options: opts, Chosen: choice, Running: from.ID, What: what, Key: key})
 		}
 		if opts[choice].Thread == -1 {
-			e.advanceLocked()
+			e.advanceToTimerLocked()
 			continue
 		}
 		next := e.threads[opts[choice].Thread]
@@ -533,18 +533,35 @@ func (e *Exec) pickLocked(from *Thread, what string) *Thread {
 
 // ---- virtual time --------------------------------------------------------------
 
+// hasTimerLocked: is there a pending TIMER (not a sleeper) that could land early?
+// Sleepers are not offered: waking a sleeping thread early while another thread
+// is runnable would starve that thread across a passage of time, which no
+// multi-core execution does.
 func (e *Exec) hasTimerLocked() bool {
 	for _, tm := range e.timers {
 		if tm.live {
 			return true
 		}
 	}
-	for _, t := range e.threads {
-		if !t.done && t.pending != nil && t.pending.kind == opSleep && e.clock.Before(t.pending.until) {
-			return true
+	return false
+}
+
+// advanceToTimerLocked moves the clock to the earliest pending timer and fires it.
+func (e *Exec) advanceToTimerLocked() {
+	var next stdtime.Time
+	have := false
+	for _, tm := range e.timers {
+		if tm.live && (!have || tm.due.Before(next)) {
+			next, have = tm.due, true
 		}
 	}
-	return false
+	if !have {
+		return
+	}
+	if next.After(e.clock) {
+		e.clock = next
+	}
+	e.fireDueLocked()
 }
 
 // advanceLocked moves the clock to the earliest pending timer or sleeper.
